@@ -298,4 +298,102 @@ theorem evalP_sound (P : Params) (t pad : List Nat) (hlen : 2 ≤ P.isogLen) (hr
     have : 1 ≤ P.eHalf := by unfold Params.eHalf; omega
     omega
 
+
+/-! ### table rows -/
+
+/-- row `i` of a 4-isogeny strategy table serves chains of length `f - i`: it must be a valid strategy for
+    ⌊(f-i)/2⌋ leaves whose traversal depth fits the VLAs of size `2·bitlen(⌊(f-i)/2⌋ mod 256)` -/
+def rowOKD (f : Nat) (row : List Nat) (i : Nat) : Bool :=
+  decide (2 ≤ f - i) && checkStratD (2 * bitlen (((f - i) / 2) % 256)) ((f - i) / 2) 0 row
+
+def rowsValidD (f : Nat) (table : List (List Nat)) : Bool :=
+  (table.zipIdx).all fun (row, i) => rowOKD f row i
+
+def badRowsD (f : Nat) (table : List (List Nat)) : List Nat :=
+  (table.zipIdx).filterMap fun (row, i) => if rowOKD f row i then none else some i
+
+theorem evalEven_sound_of_rows (f : Nat) (table : List (List Nat)) (h : rowsValidD f table = true)
+    (isogLen : Nat) (h1 : isogLen ≤ f) (h2 : f - isogLen < table.length) :
+    let P := mkParams table f isogLen
+    (evalEven table f isogLen).err = none ∧ (evalEven table f isogLen).strategy = isogLen / 2 - 1 ∧
+    (evalEven table f isogLen).trace.all (evOk P.vla (isogLen / 2 - 1)) = true ∧
+    degSum (evalEven table f isogLen).trace = isogLen := by
+  intro P
+  unfold rowsValidD at h
+  rw [List.all_eq_true] at h
+  have hm : (table[f - isogLen], f - isogLen) ∈ table.zipIdx := by
+    rw [List.mem_zipIdx_iff_getElem?]; simp [h2]
+  have hr := h _ hm
+  simp only [rowOKD, Bool.and_eq_true, decide_eq_true_eq] at hr
+  have hfi : f - (f - isogLen) = isogLen := by omega
+  rw [hfi] at hr
+  obtain ⟨t, pad, hs, hrow, _, _⟩ := checkStratD_sound _ _ _ _ hr.2
+  have hidx : ((f : Int) - (isogLen : Int)) = ((f - isogLen : Nat) : Int) := by omega
+  have hPr : P.row = t ++ pad := by
+    show (mkParams table f isogLen).row = _
+    simp only [mkParams, hidx]
+    simp [List.getD, h2, hrow]
+  have hPl : P.isogLen = isogLen := rfl
+  have hv : P.vla = 2 * bitlen ((isogLen / 2) % 256) := rfl
+  have := evalP_sound P t pad (by rw [hPl]; exact hr.1) hPr (by rw [hv]; exact hs)
+  exact this
+
+theorem whileLoop_err (P : Params) (j : Nat) (s : St) (he : s.err.isSome = true) : whileLoop P j s = s := by
+  rw [whileLoop]; simp [he]
+theorem isoStep_err (P : Params) (j : Nat) (s : St) (he : s.err.isSome = true) : isoStep P j s = s := by
+  simp [isoStep, he]
+theorem finalSteps_err (P : Params) (s : St) (he : s.err.isSome = true) : finalSteps P s = s := by
+  simp [finalSteps, he]
+theorem forLoop_err (P : Params) (n : Nat) : ∀ (j : Nat) (s : St), s.err.isSome = true → forLoop P n j s = s := by
+  induction n with
+  | zero => intro j s _; rfl
+  | succ n ih =>
+    intro j s he
+    simp only [forLoop]
+    rw [whileLoop_err P j s he, isoStep_err P j s he]
+    exact ih (j + 1) s he
+
+/-- outside the admissible range the table row does not exist: the first strategy read is out of bounds
+    (every length ≥ 4 reads the table). -/
+theorem evalEven_out_of_range (table : List (List Nat)) (f isogLen : Nat) (h4 : 4 ≤ isogLen) (hv : isogLen / 2 % 256 ≠ 0)
+    (hout : f < isogLen ∨ table.length ≤ f - isogLen) :
+    (evalEven table f isogLen).err = some (.rowIndex ((f : Int) - isogLen) table.length) := by
+  have hcases : f < isogLen ∨ (isogLen ≤ f ∧ table.length ≤ f - isogLen) := by omega
+  have hrow : (mkParams table f isogLen).row = [] := by
+    simp only [mkParams]
+    rcases hcases with h | ⟨h, h'⟩
+    · have : ¬ (0 : Int) ≤ (f : Int) - (isogLen : Int) := by omega
+      simp only [this, if_false]
+    · have hidx : ((f : Int) - (isogLen : Int)) = ((f - isogLen : Nat) : Int) := by omega
+      simp [hidx, List.getD, h']
+  have hok : (mkParams table f isogLen).rowOK = false := by
+    simp only [Params.rowOK, mkParams]
+    rcases hcases with h | ⟨h, h'⟩
+    · have : ¬ (0 : Int) ≤ (f : Int) - (isogLen : Int) := by omega
+      simp only [this, decide_false, Bool.false_and]
+    · have : ¬ ((f : Int) - (isogLen : Int) < (table.length : Int)) := by omega
+      simp only [this, decide_false, Bool.and_false]
+  have hvla : (mkParams table f isogLen).vla ≠ 0 := by
+    simp only [Params.vla, Params.eHalf, mkParams, bitlen, hv]
+    simp
+  have he : (mkParams table f isogLen).eHalf - 1 = ((mkParams table f isogLen).eHalf - 2) + 1 := by
+    simp only [Params.eHalf, mkParams]; omega
+  have hne : (initSt (mkParams table f isogLen)).block ≠ ((mkParams table f isogLen).eHalf : Int) - 1 - ((0 : Nat) : Int) := by
+    simp only [initSt, Params.eHalf, mkParams]; omega
+  have hw : whileLoop (mkParams table f isogLen) 0 (initSt (mkParams table f isogLen)) =
+      (initSt (mkParams table f isogLen)).fail (.rowIndex ((f : Int) - isogLen) table.length) := by
+    rw [whileLoop]
+    simp only [hrow, hok]
+    simp [initSt]
+    simp [mkParams, Params.eHalf] at hne ⊢
+    intro hh; omega
+  have hfail : ((initSt (mkParams table f isogLen)).fail (.rowIndex ((f : Int) - isogLen) table.length)).err.isSome = true := by
+    simp [St.fail]
+  unfold evalEven evalP
+  simp only [hvla, if_false]
+  rw [he]
+  simp only [forLoop]
+  rw [hw, isoStep_err _ _ _ hfail, forLoop_err _ _ _ _ hfail, finalSteps_err _ _ hfail]
+  simp [St.fail]
+
 end SqiProofs.EvenChain
